@@ -139,6 +139,7 @@ def same_multiset(xs, ys):
 # ---------------------------------------------------------------------------
 # keys
 
+CONFUSABLE = ['_', ':', '|', '?', '*', '<', '>', '"', '\\', ' ', '.', ',', "'", '=', '+', '-', '/']
 KEYMAPS = ['raw', 'rawkw', 'str', 'repr', 'md5', 'sha1', 'hash', 'pik', 'dillpik', 'strnf']
 
 
@@ -275,6 +276,25 @@ def key_pools(draw, cfg, n=(3, 6), stable_only=False):
             continue
         pool.append(spec)
         built.append(k)
+    # siblings: two string keys that differ ONLY in one 'confusable' character (x:y / x|y / x y ...) - the shape that exposes a lossy
+    # key -> storage-name mapping. '-' / '_' and '/' are excluded for directory archives (open findings D8a, D8b).
+    if draw(st.integers(0, 9)) < 4:
+        strs = [i for i, sp in enumerate(pool) if sp[0] == 's']
+        base = pool[strs[draw(st.integers(0, len(strs) - 1))]][1] if strs else 'k'
+        chars = [c for c in CONFUSABLE if not (is_dir(cfg) and c in ('-', '/'))]
+        if cfg == 'dir_src':
+            chars = ['_', 'x', '0']
+        if codec(cfg) == 'src':
+            chars = [c for c in chars if ord(c) < 128]
+        pos = draw(st.integers(0, len(base)))
+        c1 = draw(st.sampled_from(chars))
+        c2 = draw(st.sampled_from([c for c in chars if c != c1]))
+        for c in (c1, c2):
+            spec = ['s', base[:pos] + c + base[pos:]]
+            k = build_key(spec)
+            if key_ok(cfg, k) and not any(k == b for b in built) and not (is_dir(cfg) and any(fname(k) == fname(b) for b in built)):
+                pool.append(spec)
+                built.append(k)
     if not pool:
         pool = [['s', 'a']]
     return pool
